@@ -15,6 +15,8 @@ import (
 	"time"
 
 	toml "github.com/pelletier/go-toml"
+	"github.com/zmap/zcrypto/x509"
+	"github.com/zmap/zcrypto/x509/pkix"
 	zlint "github.com/zmap/zlint/v3"
 	"github.com/zmap/zlint/v3/lint"
 	"verif/harness/internal/corpus"
@@ -35,6 +37,66 @@ type cfgCatalog struct {
 	ids          []string
 	configurable []string
 	defaultsOK   ev.M
+	defTree      *toml.Tree
+}
+
+// identifierConfig renders a configuration in which every string / list-of-strings option of every configurable lint holds the
+// given identifiers of one object (finger prints, serial number...): what an allow-list keyed by the object would hold.
+// Registered under id; nil when no lint has such an option.
+func (cat *cfgCatalog) identifierConfig(id string, idents []string) *cfgEntry {
+	if cat.defTree == nil {
+		return nil
+	}
+	q := make([]string, len(idents))
+	for i, sv := range idents {
+		q[i] = fmt.Sprintf("%q", sv)
+	}
+	var text strings.Builder
+	classes := map[string]string{}
+	for _, n := range cat.configurable {
+		sub, ok := cat.defTree.Get(n).(*toml.Tree)
+		if !ok {
+			continue
+		}
+		var lines []string
+		for _, key := range sub.Keys() {
+			switch x := sub.Get(key).(type) {
+			case string:
+				lines = append(lines, key+" = "+q[0])
+			case []interface{}:
+				allStr := true
+				for _, e := range x {
+					if _, isStr := e.(string); !isStr {
+						allStr = false
+					}
+				}
+				if allStr {
+					lines = append(lines, key+" = ["+strings.Join(q, ", ")+"]")
+				}
+			}
+		}
+		if len(lines) > 0 {
+			fmt.Fprintf(&text, "[%s]\n%s\n\n", n, strings.Join(lines, "\n"))
+			classes[n] = "val:identifiers-of-the-object"
+		}
+	}
+	if len(classes) == 0 {
+		return nil
+	}
+	c, err := lint.NewConfigFromString(text.String())
+	if err != nil {
+		return nil
+	}
+	full := map[string]string{}
+	for _, n := range cat.configurable {
+		full[n] = "absent"
+	}
+	for k, v := range classes {
+		full[k] = v
+	}
+	e := &cfgEntry{id: id, toml: text.String(), cfg: c, classes: full}
+	cat.byID[id] = e
+	return e
 }
 
 func tomlScalar(v interface{}) string {
@@ -86,6 +148,7 @@ func buildCatalog(g lint.Registry) *cfgCatalog {
 	if err == nil {
 		if t, err2 := toml.LoadBytes(def); err2 == nil {
 			defTree = t
+			cat.defTree = t
 			info["validToml"] = true
 			info["sections"] = t.Keys()
 			cls := map[string]string{}
@@ -128,6 +191,36 @@ func buildCatalog(g lint.Registry) *cfgCatalog {
 			case string:
 				flipped = []string{"\"verif\""}
 				ill = "17"
+			case []interface{}:
+				// a list of strings: shorter lists, the empty list - and, when every default names a field of one of the
+				// certificate's structures, every other field of that structure (as well-typed a value as the defaults are)
+				var strs []string
+				for _, e := range x {
+					if sv, ok := e.(string); ok {
+						strs = append(strs, sv)
+					}
+				}
+				if len(strs) != len(x) {
+					continue
+				}
+				lit := func(l []string) string {
+					q := make([]string, len(l))
+					for i, sv := range l {
+						q[i] = fmt.Sprintf("%q", sv)
+					}
+					return "[" + strings.Join(q, ", ") + "]"
+				}
+				flipped = []string{"[]", lit([]string{"verif"})}
+				if len(strs) > 1 {
+					flipped = append(flipped, lit(strs[:1]), lit(strs[len(strs)-1:]))
+				}
+				for _, other := range fieldDictionary(strs) {
+					flipped = append(flipped, lit([]string{other}))
+					if len(strs) > 0 {
+						flipped = append(flipped, lit([]string{strs[0], other}))
+					}
+				}
+				ill = "17"
 			default:
 				continue
 			}
@@ -142,6 +235,45 @@ func buildCatalog(g lint.Registry) *cfgCatalog {
 		}
 	}
 	return cat
+}
+
+// fieldDictionary: when every word names an exported field of one structure of a parsed object (the certificate, a
+// distinguished name, a revocation list...), the names of that structure's other exported fields.
+func fieldDictionary(words []string) []string {
+	if len(words) == 0 {
+		return nil
+	}
+	for _, ty := range []reflect.Type{reflect.TypeOf(pkix.Name{}), reflect.TypeOf(x509.Certificate{}), reflect.TypeOf(x509.RevocationList{}), reflect.TypeOf(pkix.Extension{})} {
+		has := map[string]bool{}
+		for i := 0; i < ty.NumField(); i++ {
+			if ty.Field(i).PkgPath == "" {
+				has[ty.Field(i).Name] = true
+			}
+		}
+		all := true
+		for _, w := range words {
+			if !has[w] {
+				all = false
+			}
+		}
+		if !all {
+			continue
+		}
+		var others []string
+		for i := 0; i < ty.NumField() && len(others) < 40; i++ {
+			if f := ty.Field(i); f.PkgPath == "" {
+				mine := false
+				for _, w := range words {
+					mine = mine || w == f.Name
+				}
+				if !mine {
+					others = append(others, f.Name)
+				}
+			}
+		}
+		return others
+	}
+	return nil
 }
 
 // ---------------------------------------------------------------- object snapshot (read-only check)
@@ -241,10 +373,10 @@ type hreg struct {
 
 type obsRec struct {
 	obj            int // memo segment
-	target         *Target
-	st             []int
-	dg             []string
-	sel            []int
+	facts          Facts // of the object actually linted (a variant of the segment's base has its own)
+	st             []int8
+	dg             []string // interned
+	sel            []int    // shared between observations with the same selection
 	flags          []bool
 	cfgIdx         []int
 	cfgSec, cfgCls []string
@@ -268,6 +400,8 @@ type history struct {
 	// fresh: every run lints a freshly parsed copy of the object, so that a run cannot hand a modified object to the next one
 	// (C07: what other lints did to the object must show as a difference between registries, not be shared by both)
 	fresh bool
+	strs  map[string]string
+	sels  map[string][]int
 }
 
 func newHistory(objs []*Target) *history {
@@ -283,6 +417,30 @@ func newHistory(objs []*Target) *history {
 	h.g.SetConfiguration(h.cat.byID["empty"].cfg)
 	h.regs = []*hreg{{reg: h.g, cfg: "empty", class: "full"}}
 	return h
+}
+
+// intern / shareSel keep one copy of the strings and selections that nearly every observation repeats
+func (h *history) intern(sv string) string {
+	if h.strs == nil {
+		h.strs = map[string]string{}
+	}
+	if x, ok := h.strs[sv]; ok {
+		return x
+	}
+	h.strs[sv] = sv
+	return sv
+}
+
+func (h *history) shareSel(sel []int) []int {
+	if h.sels == nil {
+		h.sels = map[string][]int{}
+	}
+	k := fmt.Sprint(sel)
+	if x, ok := h.sels[k]; ok {
+		return x
+	}
+	h.sels[k] = sel
+	return sel
 }
 
 func (h *history) filter(parent int, class string, o lint.FilterOptions) int {
@@ -334,7 +492,7 @@ func (h *history) lintTarget(oi int, t *Target, ri int, tag string, snap bool) {
 	}
 	rs, esc, hung := runSet(t, hr.reg)
 	h.nLint++
-	o := obsRec{obj: oi, target: t, st: make([]int, len(ls)), dg: make([]string, len(ls)), sel: []int{}, flags: []bool{false, false, false, false},
+	o := obsRec{obj: oi, facts: Facts{Ekus: []int{}, Pols: []string{}}, st: make([]int8, len(ls)), dg: make([]string, len(ls)), sel: []int{}, flags: []bool{false, false, false, false},
 		cfgIdx: []int{}, cfgSec: []string{}, cfgCls: []string{}, escaped: esc != "" || hung, panicMsg: esc,
 		tag: fmt.Sprintf("%s|reg=%s#%d|cfg=%s", tag, hr.class, ri, hr.cfg)}
 	for i := range o.st {
@@ -345,6 +503,10 @@ func (h *history) lintTarget(oi int, t *Target, ri int, tag string, snap bool) {
 			o.sel = append(o.sel, ix)
 		}
 	}
+	if t.Kind == "cert" {
+		o.facts = certFacts(t.Cert)
+	}
+	o.sel = h.shareSel(o.sel)
 	classes := h.cat.byID[hr.cfg].classes
 	if rs != nil {
 		for name, r := range rs.Results {
@@ -356,7 +518,7 @@ func (h *history) lintTarget(oi int, t *Target, ri int, tag string, snap bool) {
 				o.st[ix-1] = -3
 				continue
 			}
-			o.st[ix-1], o.dg[ix-1] = int(r.Status), ev.Dg(r.Details)
+			o.st[ix-1], o.dg[ix-1] = int8(r.Status), h.intern(ev.Dg(r.Details))
 			if c, isCfg := classes[name]; isCfg {
 				o.cfgIdx, o.cfgSec, o.cfgCls = append(o.cfgIdx, ix), append(o.cfgSec, c), append(o.cfgCls, detailsClass(name, r.Details))
 			}
@@ -398,10 +560,7 @@ func (h *history) write(path string) int {
 		w.Emit(ev.M{"ev": "Reset", "obj": t.ID, "kind": t.Kind})
 		for _, i := range per[oi] {
 			o := h.obs[i]
-			f := Facts{Ekus: []int{}, Pols: []string{}}
-			if t.Kind == "cert" {
-				f = certFacts(o.target.Cert)
-			}
+			f := o.facts
 			if h.statusOnly {
 				for k := range o.dg {
 					o.dg[k] = ""
@@ -579,10 +738,13 @@ func cmdHistory(args []string) {
 
 	if phases["repeat"] {
 		// ---- C05: repetition and history independence
+		// (the merged trace of all processes is what TLC reads: 48 runs of each of 10^4 objects in three processes were 5.5 GB of
+		// events and more memory than the machine has; forged inputs, which are many, keep the quick proportions in both tiers)
 		passes := 2
 		if thorough {
-			passes = 8
+			passes = 5
 		}
+		forged := func(oi int) bool { return strings.HasPrefix(objs[oi].ID, "forged:") }
 		for p := 0; p < passes; p++ {
 			order := rng.Perm(len(objs))
 			if p == 0 {
@@ -591,16 +753,19 @@ func cmdHistory(args []string) {
 				}
 			}
 			for _, oi := range order {
+				if p >= 2 && forged(oi) {
+					continue
+				}
 				h.lint(oi, 0, fmt.Sprintf("pass%d", p), p < 2)
 			}
 		}
 		// back-to-back repetitions (map iteration order shows here)
 		reps := 4
 		if thorough {
-			reps = 40
+			reps = 16
 		}
 		for oi := range objs {
-			for k := 0; k < reps; k++ {
+			for k := 0; k < reps && (k < 4 || !forged(oi)); k++ {
 				h.lint(oi, 0, fmt.Sprintf("rep%d", k), false)
 			}
 		}
